@@ -2,9 +2,10 @@
    Sched.v is extended with the directory's state: a publish reads the state together with the epoch
    (after taking the mutex), computes its commit from what it read, and commits; [apply d i] is the
    state after task i's batch has been applied to state d - any function.  Theorems: the extension
-   does not change the protocol (its projection IS Sched.run), and under every schedule the state is
-   the result of applying the committed batches one after another in epoch order; without the mutex
-   an update is lost. *)
+   does not change the protocol (its projection IS Sched.run); under every schedule the state is
+   the result of applying the committed batches one after another in epoch order, and the state each
+   commit produced (whose epoch and root hash the call returns) is the state of the serial
+   application up to and including that batch; without the mutex an update is lost. *)
 From Coq Require Import List Bool Arith NArith Lia.
 From Akd Require Import Sched.
 Import ListNotations.
@@ -14,92 +15,117 @@ Section State.
   Variable St : Type.
   Variable apply : St -> nat -> St.
 
-  Definition xstate : Type := (world * (nat -> pc)) * (St * (nat -> St)).
+  (* protocol state; current directory state; what each task read; (ghost) the state each commit
+     produced, in commit order *)
+  Record xstate := X { x_w : world; x_pcs : nat -> pc; x_d : St; x_snap : nat -> St; x_hist : list St }.
 
   Definition supd (snap : nat -> St) (i : nat) (d : St) : nat -> St := fun j => if Nat.eqb j i then d else snap j.
 
   Definition step_st (locking : bool) (x : xstate) (i : nat) : xstate :=
-    let '(s, (d, snap)) := x in
-    let s' := step locking s i in
-    match snd s i with
-    | Locked => (s', (d, supd snap i d))
-    | Read _ => (s', (apply (snap i) i, snap))
-    | _ => (s', (d, snap))
+    let s' := step locking (x_w x, x_pcs x) i in
+    match x_pcs x i with
+    | Locked => X (fst s') (snd s') (x_d x) (supd (x_snap x) i (x_d x)) (x_hist x)
+    | Read _ => let d' := apply (x_snap x i) i in X (fst s') (snd s') d' (x_snap x) (x_hist x ++ [d'])
+    | _ => X (fst s') (snd s') (x_d x) (x_snap x) (x_hist x)
     end.
 
+  Definition xinit (e0 : N) (d0 : St) : xstate := X (W e0 [] None []) (fun _ => Idle) d0 (fun _ => d0) [].
   Definition run_st (locking : bool) (e0 : N) (d0 : St) (sched : list nat) : xstate :=
-    fold_left (step_st locking) sched ((W e0 [] None [], fun _ => Idle), (d0, fun _ => d0)).
+    fold_left (step_st locking) sched (xinit e0 d0).
+
+  Definition proto (x : xstate) : world * (nat -> pc) := (x_w x, x_pcs x).
 
   (* the protocol is untouched *)
-  Lemma step_st_fst locking x i : fst (step_st locking x i) = step locking (fst x) i.
-  Proof. destruct x as [s [d snap]]. unfold step_st. cbn [fst]. destruct (snd s i); reflexivity. Qed.
+  Lemma step_st_proto locking x i : proto (step_st locking x i) = step locking (proto x) i.
+  Proof.
+    unfold step_st, proto. destruct (x_pcs x i); cbn [x_w x_pcs];
+      destruct (step locking (x_w x, x_pcs x) i); reflexivity.
+  Qed.
 
-  Theorem run_st_projects locking e0 d0 sched : fst (run_st locking e0 d0 sched) = run locking e0 sched.
+  Theorem run_st_projects locking e0 d0 sched : proto (run_st locking e0 d0 sched) = run locking e0 sched.
   Proof.
     unfold run_st, run.
-    assert (G : forall sched x, fst (fold_left (step_st locking) sched x) = fold_left (step locking) sched (fst x)).
-    { induction sched0 as [|i rest IH]; intros x; [reflexivity|]. cbn [fold_left]. rewrite IH, step_st_fst. reflexivity. }
+    assert (G : forall sched x, proto (fold_left (step_st locking) sched x) = fold_left (step locking) sched (proto x)).
+    { induction sched0 as [|i rest IH]; intros x; [reflexivity|]. cbn [fold_left]. rewrite IH, step_st_proto. reflexivity. }
     rewrite G. reflexivity.
   Qed.
 
   (* the committed batches, in commit (= epoch) order *)
   Definition committed_tasks (w : world) : list nat := map snd (w_log w).
 
-  Record SInv (e0 : N) (d0 : St) (x : xstate) : Prop := {
-    s_inv : Inv e0 (fst (fst x)) (snd (fst x));
-    s_snap : forall j e, snd (fst x) j = Read e -> snd (snd x) j = fst (snd x);
-    s_state : fst (snd x) = fold_left apply (committed_tasks (fst (fst x))) d0 }.
+  (* the states of the serial application: after the first batch, after the first two, ... *)
+  Fixpoint serial_states (d : St) (tasks : list nat) : list St :=
+    match tasks with
+    | [] => []
+    | i :: rest => apply d i :: serial_states (apply d i) rest
+    end.
 
-  Lemma SInv_init e0 d0 : SInv e0 d0 ((W e0 [] None [], fun _ => Idle), (d0, fun _ => d0)).
-  Proof. constructor; cbn; [apply Inv_init | discriminate | reflexivity]. Qed.
+  Lemma serial_states_app d l1 l2 : serial_states d (l1 ++ l2) = serial_states d l1 ++ serial_states (fold_left apply l1 d) l2.
+  Proof. revert d. induction l1 as [|i l1 IH]; intros d; [reflexivity|]. cbn [app serial_states fold_left]. rewrite IH. reflexivity. Qed.
+
+  Record SInv (e0 : N) (d0 : St) (x : xstate) : Prop := {
+    s_inv : Inv e0 (x_w x) (x_pcs x);
+    s_snap : forall j e, x_pcs x j = Read e -> x_snap x j = x_d x;
+    s_state : x_d x = fold_left apply (committed_tasks (x_w x)) d0;
+    s_hist : x_hist x = serial_states d0 (committed_tasks (x_w x)) }.
+
+  Lemma SInv_init e0 d0 : SInv e0 d0 (xinit e0 d0).
+  Proof. constructor; cbn; [apply Inv_init | discriminate | reflexivity | reflexivity]. Qed.
 
   Lemma SInv_step e0 d0 x i : SInv e0 d0 x -> SInv e0 d0 (step_st true x i).
   Proof.
-    destruct x as [[w pcs] [d snap]]. intros [I Sn Sd]. cbn [fst snd] in *.
+    destruct x as [w pcs d snap hist]. intros [I Sn Sd Sh]. cbn [x_w x_pcs x_d x_snap x_hist] in *.
     pose proof (Inv_step e0 w pcs i I) as I'.
-    unfold step_st. cbn [snd].
+    unfold step_st. cbn [x_w x_pcs x_d x_snap x_hist].
     destruct (pcs i) as [| | |e|r] eqn:Ei.
     - (* Idle *)
-      constructor; cbn [fst snd]; [exact I' | | ].
+      constructor; cbn [x_w x_pcs x_d x_snap x_hist]; [exact I' | | | ].
       + intros j e Hj. apply (Sn j e). revert Hj. unfold step. rewrite Ei. cbn [negb].
         destruct (w_holder w), (w_queue w); cbn [snd]; unfold upd; destruct (Nat.eqb j i); try discriminate; auto.
       + revert Sd. unfold step. rewrite Ei. cbn [negb]. destruct (w_holder w), (w_queue w); cbn [fst]; auto.
+      + revert Sh. unfold step. rewrite Ei. cbn [negb]. destruct (w_holder w), (w_queue w); cbn [fst]; auto.
     - (* Waiting *)
-      constructor; cbn [fst snd]; [exact I' | | ].
+      constructor; cbn [x_w x_pcs x_d x_snap x_hist]; [exact I' | | | ].
       + intros j e Hj. apply (Sn j e). revert Hj. unfold step. rewrite Ei.
         destruct (w_holder w) as [h|]; [|auto]. destruct (Nat.eqb h i); [|auto].
         cbn [snd]. unfold upd. destruct (Nat.eqb j i); [discriminate | auto].
       + revert Sd. unfold step. rewrite Ei. destruct (w_holder w) as [h|]; [|auto]. destruct (Nat.eqb h i); auto.
+      + revert Sh. unfold step. rewrite Ei. destruct (w_holder w) as [h|]; [|auto]. destruct (Nat.eqb h i); auto.
     - (* Locked: reads epoch and state *)
-      constructor; cbn [fst snd]; [exact I' | | ].
+      constructor; cbn [x_w x_pcs x_d x_snap x_hist]; [exact I' | | | ].
       + intros j e Hj. unfold supd. destruct (Nat.eqb_spec j i) as [->|Nj]; [reflexivity|].
         apply (Sn j e). revert Hj. unfold step. rewrite Ei. cbn [snd]. rewrite upd_other by exact Nj. auto.
       + revert Sd. unfold step. rewrite Ei. cbn [fst]. auto.
+      + revert Sh. unfold step. rewrite Ei. cbn [fst]. auto.
     - (* Read e: commits what it computed from its snapshot *)
       assert (Hsn : snap i = d) by (apply (Sn i e Ei)).
       assert (Hh : w_holder w = Some i) by (apply (i_cs _ _ _ I i); right; exists e; exact Ei).
-      constructor; cbn [fst snd]; [exact I' | | ].
+      constructor; cbn [x_w x_pcs x_d x_snap x_hist]; [exact I' | | | ].
       + intros j e' Hj. exfalso. revert Hj. unfold step. rewrite Ei. cbn [negb snd].
         unfold upd. destruct (Nat.eqb_spec j i) as [->|Nj]; [discriminate|]. intros Hj.
         assert (Hhj : w_holder w = Some j) by (apply (i_cs _ _ _ I j); right; exists e'; exact Hj).
         congruence.
       + rewrite Hsn, Sd. unfold step. rewrite Ei. cbn [negb fst].
         destruct (w_queue w); unfold committed_tasks; cbn [w_log fst]; rewrite map_app, fold_left_app; reflexivity.
+      + rewrite Hsn, Sh, Sd. unfold step. rewrite Ei. cbn [negb fst].
+        destruct (w_queue w); unfold committed_tasks; cbn [w_log fst]; rewrite map_app, serial_states_app; reflexivity.
     - (* Done *)
-      constructor; cbn [fst snd]; [exact I' | | ].
+      constructor; cbn [x_w x_pcs x_d x_snap x_hist]; [exact I' | | | ].
       + intros j e Hj. apply (Sn j e). revert Hj. unfold step. rewrite Ei. auto.
       + revert Sd. unfold step. rewrite Ei. auto.
+      + revert Sh. unfold step. rewrite Ei. auto.
   Qed.
 
   Theorem publishes_apply_in_epoch_order e0 d0 sched :
     let x := run_st true e0 d0 sched in
-    fst (snd x) = fold_left apply (committed_tasks (fst (fst x))) d0 /\
-    log_ok e0 (w_log (fst (fst x))) (w_epoch (fst (fst x))).
+    x_d x = fold_left apply (committed_tasks (x_w x)) d0 /\
+    x_hist x = serial_states d0 (committed_tasks (x_w x)) /\
+    log_ok e0 (w_log (x_w x)) (w_epoch (x_w x)).
   Proof.
     cbv zeta. unfold run_st.
     assert (G : forall sched x, SInv e0 d0 x -> SInv e0 d0 (fold_left (step_st true) sched x)).
     { induction sched0 as [|i rest IH]; intros x Hx; [exact Hx|]. cbn [fold_left]. apply IH. apply SInv_step. exact Hx. }
-    pose proof (G sched _ (SInv_init e0 d0)) as [I _ Sd]. split; [exact Sd | apply (i_log _ _ _ I)].
+    pose proof (G sched _ (SInv_init e0 d0)) as [I _ Sd Sh]. split; [exact Sd|]. split; [exact Sh | apply (i_log _ _ _ I)].
   Qed.
 End State.
 
@@ -107,5 +133,5 @@ End State.
    they read at the start, the second commit overwrites the first *)
 Theorem without_mutex_update_lost :
   let x := run_st (list nat) (fun d i => d ++ [i]) false 2 [] [0; 1; 0; 1; 0; 1]%nat in
-  committed_tasks (fst (fst x)) = [0; 1]%nat /\ fst (snd x) = [1]%nat.
+  committed_tasks (x_w _ x) = [0; 1]%nat /\ x_d _ x = [1]%nat.
 Proof. vm_compute. split; reflexivity. Qed.
